@@ -130,8 +130,8 @@ namespace {
     fd::check4(c, TS(TS::dBdF(F)), N, SYM, NS, [](const M3& x) { return x * ref::transpose(x); }, X,
                h, nX, rel, dir, "C06.tensor.dBdF", "t2tost2::dBdF");
     // Green-Lagrange strain E = (C - I)/2: its derivative is dCdF/2 (no dedicated helper)
-    // (only for |F| of order one: the constant I absorbs F^T F otherwise, even in long double)
-    if (ref::norm(X) > 1e-3L && ref::norm(X) < 1e3L)
+    // (only for 0.1 < |F| < 1e3: the constant I absorbs F^T F otherwise, even in long double)
+    if (ref::norm(X) > 0.1L && ref::norm(X) < 1e3L)
       fd::check4(c, TS(TS::dCdF(F) / 2), N, SYM, NS,
                [](const M3& x) { return R(0.5) * (ref::transpose(x) * x - M3::Id()); }, X, h, nX,
                rel, dir, "C06.tensor.dEdF", "dCdF/2 vs Green-Lagrange");
